@@ -133,3 +133,18 @@ func init() {
 		absSigs: map[string]string{"isPrint": "Int → Bool", "isSpace": "Int → Bool", "quote": "Bytes → Bytes", "unquote": "Bytes → (Bytes × Option String)"},
 	})
 }
+
+func init() {
+	g2lUnits = append(g2lUnits, &g2lUnit{
+		out: "FnLex", ns: "Lex", pkgDir: "modfile",
+		imports:      []string{"ModVerif.Basic.GoRtUtf8", "ModVerif.Basic.GoRtStrings"},
+		structNames:  []string{"Position", "Comment", "token", "input"},
+		structFields: map[string][]string{"input": {"complete", "remaining", "tokenStart", "token", "pos", "comments"}},
+		fns: []string{"isIdent", "input.eof", "input.peekRune", "input.peekPrefix", "input.readRune", "tokenKind.isComment", "tokenKind.isEOL",
+			"input.startToken", "input.endToken", "input.peek", "input.lex", "input.readToken"},
+		inout: map[string]string{"input.readRune": "in", "input.startToken": "in", "input.endToken": "in", "input.lex": "in", "input.readToken": "in"},
+		panicCalls: map[string]bool{"input.Error": true},
+		absFuncs:   map[string]string{"unicode.IsPrint": "isPrint", "unicode.IsSpace": "isSpace"},
+		absSigs:    map[string]string{"isPrint": "Int → Bool", "isSpace": "Int → Bool"},
+	})
+}
